@@ -98,6 +98,7 @@ class World(BaseWorld):
         self.S0 = canon(desc['spec'])
         self.executions = 0
         self.children = 0
+        self.opt_digest = {}
         self.cwd0 = os.getcwd()
         os.makedirs(os.path.join(self.dir, 'tmp'), exist_ok=True)
         # the model, built once, saved to files
@@ -191,11 +192,26 @@ class World(BaseWorld):
             super().close()
 
     # ------------------------------------------------------------ executions
-    def _pipeline(self, lg, model):
+    def _pipeline(self, lg, model, attach=True, calc=True):
         g = self.AttackGraph(lg, model)
-        g.attach_attackers()
-        self.apriori.calculate_viability_and_necessity(g)
+        if attach:
+            g.attach_attackers()
+        if calc:
+            self.apriori.calculate_viability_and_necessity(g)
         return g
+
+    def _ref_for_options(self, fmt, attach, calc):
+        """Digest of the direct-API execution with the same two options."""
+        key = (fmt, bool(attach), bool(calc))
+        if key == (fmt, True, True):
+            return self.ref_digest[fmt]
+        if key not in self.opt_digest:
+            lg = self.LanguageGraph(copy.deepcopy(self.desc['spec']))
+            fac = self.LanguageClassesFactory(lg)
+            model = self.Model.load_from_file(self.files[fmt], fac)
+            o = call(self._pipeline, lg, model, attach, calc)
+            self.opt_digest[key] = None if o.raised else graph_digest(o.value)
+        return self.opt_digest[key]
 
     def _exec_api(self, fmt, spec=None, keep=False):
         spec_obj = copy.deepcopy(self.desc['spec']) if spec is None else spec
@@ -224,7 +240,7 @@ class World(BaseWorld):
     # -------------------------------------------------------------------- ops
     def gen_op(self, rng):
         kinds = [(3, 'twice'), (2, 'interleaved'), (2, 'regenerated'), (2, 'inputs'),
-                 (2, 'other_work'), (3, 'wrapper')]
+                 (2, 'other_work'), (3, 'wrapper'), (3, 'edited')]
         kind = weighted(rng, kinds)
         if rng.random() < self.cfg.get('p_child', 0.3):
             kind = 'child'
@@ -238,7 +254,17 @@ class World(BaseWorld):
                   'cwd': rng.choice(['scratch', 'sub', 'root_of_tree'])}
             if kind == 'child':
                 op['hashseed'] = rng.choice([0, 1, 2, rng.randrange(3, 2 ** 31)])
+            elif rng.random() < 0.5:
+                # the two options of the wrapper, set differently from their defaults
+                op['attach'], op['calc'] = rng.choice([(False, True), (True, False), (False, False)])
             return op
+        if kind == 'edited':
+            return {'op': kind, 'model_fmt': rng.choice(['json', 'yml']),
+                    'edits': [{'kind': rng.choice(['from_assoc', 'from_assoc', 'from_assoc', 'assoc',
+                                                   'asset', 'defense', 'new_asset']),
+                               'i': rng.randrange(1000), 'j': rng.randrange(1000)}
+                              for _ in range(rng.choice([1, 1, 2, 3]))],
+                    'graph_first': rng.random() < 0.85}
         return {'op': kind, 'model_fmt': rng.choice(['json', 'yml'])}
 
     def apply(self, op):
@@ -427,18 +453,108 @@ class World(BaseWorld):
         try:
             import contextlib
             import io
+            kw = {}
+            if 'attach' in op:
+                kw = {'attach_attackers': op['attach'], 'calc_viability_and_necessity': op['calc']}
             with contextlib.redirect_stderr(io.StringIO()):
                 o = call(self.wrappers.create_attack_graph, self._lang_file(via),
-                         self.files[op['model_fmt']])
+                         self.files[op['model_fmt']], **kw)
         finally:
             os.chdir(self.cwd0)
+        what = f'create_attack_graph({via}, *.{op["model_fmt"]}' + \
+            (f', attach_attackers={op["attach"]}, calc_viability_and_necessity={op["calc"]})' if kw else ')')
         if o.raised:
-            raise Violation('C16.same', f'create_attack_graph({via}, *.{op["model_fmt"]}) raised '
-                                        f'{o.exc!r} although the API path succeeds')
+            raise Violation('C16.same', f'{what} raised {o.exc!r} although the API path succeeds')
         self.executions += 1
-        self._same(graph_digest(o.value), f'create_attack_graph({via}, *.{op["model_fmt"]})',
-                   op['model_fmt'])
+        if kw:
+            exp = self._ref_for_options(op['model_fmt'], op['attach'], op['calc'])
+            if exp is None:
+                raise SetupRejected('generate:options')
+            self.count('oracle:C16.same')
+            self.count('probe:wrapper_options_not_default')
+            if graph_digest(o.value) != exp:
+                raise Violation('C16.same', f'{what}: serialized graph differs from the direct API '
+                                            f'(generate{", attach" if op["attach"] else ""}'
+                                            f'{", analyse" if op["calc"] else ""}) on the same files')
+        else:
+            self._same(graph_digest(o.value), what, op['model_fmt'])
         self.count('probe:' + via)
+        return 'ok'
+
+    def do_edited(self, op):
+        """A graph is generated, the model is edited through the Model API, a graph is
+        generated again from the same objects.  The edited model is saved; a fresh language
+        graph + the saved model must give the very same graph."""
+        fmt = op['model_fmt']
+        spec_obj = copy.deepcopy(self.desc['spec'])
+        lg = self.LanguageGraph(spec_obj)
+        fac = self.LanguageClassesFactory(lg)
+        model = self.Model.load_from_file(self.files[fmt], fac)
+        if op.get('graph_first', True):
+            o = call(self._pipeline, lg, model)
+            if o.raised:
+                raise SetupRejected('generate:late')
+        done = []
+        for e in op.get('edits', []):
+            kind, i, j = e['kind'], e['i'], e['j']
+            if kind in ('from_assoc', 'assoc') and model.associations:
+                assoc = model.associations[i % len(model.associations)]
+                if kind == 'assoc':
+                    r = call(model.remove_association, assoc)
+                else:
+                    lf, rf = model.get_association_field_names(assoc)
+                    sides = [list(getattr(assoc, lf)), list(getattr(assoc, rf))]
+                    # prefer a side that keeps another member (the association stays)
+                    sides.sort(key=lambda x: -len(x))
+                    side = sides[0] if (len(sides[0]) > 1 or j % 4) else sides[1]
+                    if len(side) > 1:
+                        self.count('probe:edited_association_kept_with_fewer_members')
+                    r = call(model.remove_asset_from_association, side[j % len(side)], assoc)
+            elif kind == 'asset' and len(model.assets) > 1:
+                r = call(model.remove_asset, model.assets[i % len(model.assets)])
+            elif kind == 'defense' and model.assets:
+                a = model.assets[i % len(model.assets)]
+                defs = sorted(self.mw.L.defenses(type(a).__name__))
+                if not defs:
+                    continue
+                r = call(setattr, a, defs[j % len(defs)], [0.0, 1.0, 0.5][j % 3])
+            elif kind == 'new_asset' and model.assets:
+                t = type(model.assets[i % len(model.assets)]).__name__
+                r = call(model.add_asset, getattr(fac.ns, t)(name=f'extra{len(done)}'))
+            else:
+                continue
+            if r.raised:
+                raise SetupRejected('edit:' + r.exc_name())
+            done.append(kind)
+        if not done:
+            return 'noop'
+        a = call(self._pipeline, lg, model)
+        p = self.fresh_path('.json')
+        sv = call(model.save_to_file, p)
+        if sv.raised:
+            raise SetupRejected('edit:save:' + sv.exc_name())
+        lg2 = self.LanguageGraph(copy.deepcopy(self.desc['spec']))
+        m2 = call(self.Model.load_from_file, p, self.LanguageClassesFactory(lg2))
+        if m2.raised:
+            raise SetupRejected('edit:load:' + m2.exc_name())
+        b = call(self._pipeline, lg2, m2.value)
+        os.remove(p)
+        self.executions += 2
+        where = f'model edited ({", ".join(done)}) after a graph was generated from it'
+        self.count('oracle:C16.same')
+        if a.raised != b.raised:
+            raise Violation('C16.same', f'{where}: generation in the same process '
+                            f'{"raised " + repr(a.exc) if a.raised else "succeeds"}, generation from '
+                            f'the saved model {"raised " + repr(b.exc) if b.raised else "succeeds"}')
+        if a.raised:
+            return 'both_refuse'
+        if graph_digest(a.value) != graph_digest(b.value):
+            da, db = a.value._to_dict(), b.value._to_dict()
+            raise Violation('C16.same', f'{where}: the graph generated in the same process differs '
+                            f'from the graph generated from the saved model\n'
+                            + world_m._obs_diff(json.loads(canon(db)), json.loads(canon(da))))
+        self.count('probe:generated_after_model_edit')
+        self._inputs_unchanged(model, spec_obj, 'generation after a model edit')
         return 'ok'
 
     def _chdir(self, which):
